@@ -53,7 +53,26 @@ def _one(arg):
                 keys, det = fsckpair.pycheck(img)
                 out["py"] = keys
                 out["pydet"] = det
-        if out.get("py") and (out.get("rc") == 0 or out.get("rc2") == 0):
+        if out.get("py") and "ORACLE-CRASH" not in out["py"] and (out.get("rc") == 0 or out.get("rc2") == 0):
+            # reduce to a 1-minimal set of corruptions that e2fsck still accepts wrongly
+            def still(c2):
+                fsckpair.materialise(c2, u.paths[c2.image], img)
+                if stream == "a":
+                    k2, _ = fsckpair.pycheck(img)
+                    if not k2 or "ORACLE-CRASH" in k2:
+                        return False
+                    return run.run([e2fsck, "-fn", img], env=env, timeout=180).rc == 0
+                r2 = fsckpair.repair_pair(e2fsck, env, img, workdir, "m%d" % cid)
+                if r2["rc2"] != 0:
+                    return False
+                k2, _ = fsckpair.pycheck(img)
+                return bool(k2) and "ORACLE-CRASH" not in k2
+            if len(case.op_patches) > 1:
+                small = fsckpair.minimise_case(u, case, "all", still)
+                if small is not case and still(small):
+                    case = small
+                    out["cls"], out["descr"] = case.cls, case.descr
+                    out["py"], out["pydet"] = fsckpair.pycheck(img)
             out["patches"] = [[o, b.hex()] for o, b in case.patches]
     finally:
         try:
@@ -117,7 +136,10 @@ def main(tier, seed, replay=None, scale=1.0):
                     rep.count("a_e2fsck_signal")
                     continue
                 if r.get("rc") == 0:
-                    key = "C02a e2fsck-fn-accepts %s" % ",".join(py)
+                    fams = ",".join(sorted(set(k.split(":")[0] for k in py)))
+                    key = "C02a e2fsck-fn-accepts [%s] %s" % (r["cls"], fams)
+                    if "F5:group-desc-csum" in py:
+                        key = "C02a e2fsck-fn-accepts F5:group-desc-csum" 
                     rep.violation(key, "e2fsck -fn exits 0 on %s cid %d %s but the independent checker "
                                   "finds: %s" % (r["image"], r["cid"], r["descr"], r["pydet"]),
                                   replay={"stream": "a", "cid": r["cid"], "image": r["image"],
@@ -132,7 +154,8 @@ def main(tier, seed, replay=None, scale=1.0):
                 rep.case(("b|" + kinds) if r.get("codes1") else None)
                 rep.count("b_clean_after_repair")
                 if py:
-                    key = "C02b post-repair-accepted %s" % ",".join(py)
+                    fams = ",".join(sorted(set(k.split(":")[0] for k in py)))
+                    key = "C02b post-repair-accepted [%s] %s" % (r["cls"], fams)
                     rep.violation(key, "after e2fsck -fy (exit %s) e2fsck -fn exits 0 on %s cid %d %s but "
                                   "the independent checker finds: %s" %
                                   (r["rc1"], r["image"], r["cid"], r["descr"], r["pydet"]),
